@@ -18,7 +18,8 @@ RULE = ("Hypothesis rule-based state machine over a simulated node on a generate
         "extend(head, subset of the pool mined, optional conflicting spend) and fork(depth, length) building a longer side branch "
         "that un-spends and re-spends outputs, delivered through the relay path or set_coinstate; race_submit: while a valid "
         "transaction is being admitted another thread publishes a head that spends its input (schedule injection inside the "
-        "admission's validation). Oracle after EVERY step against "
+        "admission's validation); ibd_rollback: bulk-download blocks are adopted unvalidated, a transaction spending their output "
+        "is admitted, then an invalid block makes the node fall back to its last validated state. Oracle after EVERY step against "
         "the reference ledger at the reference head: each pooled transaction is reference-valid there, no two share a reference; "
         "a transaction failing validity or conflicting is not admitted; after a head change the pool == previous pool filtered by "
         "reference validity, order preserved. non-trivial = machine with >= 1 eviction caused by a fork switch and >= 1 refused "
@@ -91,6 +92,10 @@ class Exec:
         self.node.cm.started_at = -10 ** 9
         self.wire = simnet.Wire(self.net, self.node)
         self.wire.greet()
+        self.acc = R.RefLedger(b.GENESIS, self.led.cfg)          # the blocks the NODE currently holds (reference view)
+        for i in self.led.order[1:]:
+            self.acc.add(self.led.nodes[i].blk)
+        self.valid_snapshot = list(self.acc.order)             # node state at the last VALIDATED state change
         self.pool = []                 # model: list of RTx in admission order
         self.n = 0
         self.fails = []
@@ -101,7 +106,7 @@ class Exec:
             self.fails.append({"kind": kind, "sig": sig, "msg": msg})
 
     def head(self):
-        return self.led.head()
+        return self.acc.head()
 
     def node_pool(self):
         return [self.b.from_sk_tx(t) for t in self.node.cm.transaction_pool]
@@ -153,15 +158,15 @@ class Exec:
         if kind == "other_fork":
             anc = set()
             for bid in head.chain:
-                anc.update(self.led.nodes[bid].utxo.keys())
-            other = sorted((r, o) for nid in self.led.order if nid not in head.chain for r, o in self.led.nodes[nid].utxo.items()
+                anc.update(self.acc.nodes[bid].utxo.keys())
+            other = sorted((r, o) for nid in self.acc.order if nid not in head.chain for r, o in self.acc.nodes[nid].utxo.items()
                            if r not in anc and any(k.pub == o[1] for k in KEYS))
             x = pick(other, a)
             if x is None:
                 return None
             return signed([x[0]], [(x[1][0], KEYS[c % len(KEYS)].pub)], [owner(x[1])])
         if kind == "spent":
-            gone = sorted((r, o) for bid in head.chain[:-1] for r, o in self.led.nodes[bid].utxo.items() if r not in utxo and any(k.pub == o[1] for k in KEYS))
+            gone = sorted((r, o) for bid in head.chain[:-1] for r, o in self.acc.nodes[bid].utxo.items() if r not in utxo and any(k.pub == o[1] for k in KEYS))
             x = pick(gone, a)
             if x is None:
                 return None
@@ -295,6 +300,8 @@ class Exec:
             self.simnet.CLOCK.now = max(self.simnet.CLOCK.now, blk.ts)
             cs2 = self.node.cm.coinstate.add_block(self.b.to_sk_block(blk), self.simnet.CLOCK.now)
             self.world.accept(label, blk)
+            self.acc.add(blk)
+            self.valid_snapshot = list(self.acc.order)
             prev_pool = list(self.pool)
             orig = MG.validate_non_coinbase_transaction_in_coinstate
             state = {}
@@ -331,6 +338,85 @@ class Exec:
                 self.fail("race", "pool-wrong-after-concurrent-head-change", "pool differs from the previous pool filtered by validity after a head change concurrent with a submission")
             self.pool = want
             self.invariant("after a submission concurrent with a head change")
+        elif k == "ibd_rollback":
+            # blocks fetched in bulk download are adopted WITHOUT in-state validation; a transaction spending one of their
+            # outputs is admitted; then a delivered block fails in-state validation and the node falls back to its last
+            # validated state -- the pool must be cleaned against THAT state
+            _, n_ibd, a, miner = op
+            head0 = self.head()
+            tip = head0
+            new_ids = []
+            for j in range(1 + n_ibd % 2):
+                self.n += 1
+                label = "i%d" % self.n
+                plabel = next(l for l, blk in self.world.blocks.items() if blk.id() == tip.id)
+                blk = self.world.build_block({"label": label, "parent": plabel, "miner": (miner + j) % len(KEYS), "dt": self.world.safe_dt(tip, 40), "txs": []})
+                if blk is None or self.led.validate(blk, blk.ts):
+                    return
+                self.world.accept(label, blk)
+                self.simnet.CLOCK.now = max(self.simnet.CLOCK.now, blk.ts)
+                self.wire.send(M.DataMessage(M.DATA_BLOCK, self.b.to_sk_block(blk)), in_response_to=7)      # as an answer to a request
+                self.wire.deliver()
+                if blk.id() not in self.node.cm.coinstate.block_by_hash:
+                    self.fail("harness", "harness:block-not-accepted", "a bulk-download block was not adopted")
+                    return
+                self.acc.add(blk)
+                new_ids.append(blk.id())
+                tip = self.acc.nodes[blk.id()]
+            # pool follows the new head (exact eviction is checked by the other ops; here only re-sync the model)
+            utxo = self.head().utxo
+            self.pool = [t for t in self.pool if tx_valid(t, utxo) is None]
+            if [t.id() for t in self.node_pool()] != [t.id() for t in self.pool]:
+                self.fail("eviction", "pool-wrong-after-bulk-download-blocks", "pool differs from the previous pool filtered by validity after bulk-download blocks")
+                return
+            # a transaction that spends an output created by a bulk-download block
+            cbref = (tip.blk.txs[0].id(), 0)
+            o = utxo.get(cbref)
+            kk = next((kk for kk in KEYS if o and kk.pub == o[1]), None)
+            if kk is None:
+                return
+            tx = R.RTx([(cbref[0], 0, ("se",))], [(o[0] - a % 7, KEYS[a % len(KEYS)].pub)])
+            tx.ins = [(cbref[0], 0, ("sig", kk.sign(R.signing_message(tx))))]
+            tx.touch()
+            if self.node.cm.add_transaction_to_pool(self.b.to_sk_tx(tx)):
+                self.pool.append(tx)
+            # an invalid block (passes the stand-alone checks, fails in-state validation: timestamp equal to its parent's)
+            self.n += 1
+            plabel = next(l for l, blk in self.world.blocks.items() if blk.id() == tip.id)
+            bad = self.world.build_block({"label": "x%d" % self.n, "parent": plabel, "miner": miner % len(KEYS), "dt": 40, "txs": [], "hdr": {"ts": "parent"}})
+            if bad is None:
+                return
+            self.wire.send(M.DataMessage(M.DATA_BLOCK, self.b.to_sk_block(bad)))
+            self.wire.deliver()
+            if not self.wire.connected:
+                self.wire = self.simnet.Wire(self.net, self.node, host="10.0.2.%d" % (self.n % 200 + 2))
+                self.wire.greet()
+            self.flags["rollbacks"] = self.flags.get("rollbacks", 0) + 1
+            # the node is back at its last validated state
+            have = set(self.node.cm.coinstate.block_by_hash.keys())
+            if have != set(self.valid_snapshot):
+                if bad.id() in have:
+                    self.fail("harness", "harness:invalid-block-accepted", "block with timestamp equal to its parent's was accepted")
+                    return
+                # (whether the node keeps or drops the unvalidated blocks is not this property's business; follow it)
+                keep = [i for i in self.acc.order if i in have]
+            else:
+                keep = list(self.valid_snapshot)
+            acc2 = R.RefLedger(self.b.GENESIS, self.led.cfg)
+            for i in keep[1:]:
+                acc2.add(self.acc.nodes[i].blk)
+            self.acc = acc2
+            utxo = self.head().utxo
+            want = [t for t in self.pool if tx_valid(t, utxo) is None]
+            got = [t.id() for t in self.node_pool()]
+            if got != [t.id() for t in want]:
+                gs, ws = set(got), {t.id() for t in want}
+                if gs - ws:
+                    self.fail("eviction", "invalid-transaction-kept-after-rollback", "after falling back to the last validated state %d transaction(s) that are not valid there stayed in the pool" % len(gs - ws))
+                else:
+                    self.fail("eviction", "valid-transaction-evicted-on-rollback", "after falling back to the last validated state the pool lost still-valid transactions or changed order")
+            self.pool = want
+            self.invariant("after a rollback to the last validated state")
         elif k == "extend":
             _, mask, conflict, via, miner = op
             take = [t for j, t in enumerate(self.pool) if (mask >> j) & 1]
@@ -352,7 +438,7 @@ class Exec:
             _, depth, extra_len, via, spend_mask = op
             head = self.head()
             depth = 1 + depth % max(1, min(3, head.height))
-            base = self.led.nodes[head.chain[head.height - depth]]
+            base = self.acc.nodes[head.chain[head.height - depth]]
             tip = base
             for j in range(depth + 1 + extra_len % 2):
                 txs = []
@@ -404,6 +490,8 @@ class Exec:
         if blk.id() not in self.node.cm.coinstate.block_by_hash:
             self.fail("harness", "harness:block-not-accepted", "an honest block was not accepted by the node")
             return node
+        self.acc.add(blk)
+        self.valid_snapshot = list(self.acc.order)
         new_head = self.head()
         if new_head.id != old_head.id:
             self.flags["head_changes"] += 1
@@ -475,6 +563,10 @@ class Machine(RuleBasedStateMachine):
     @rule(a=st.integers(0, 1000), b=st.integers(0, 1000), c=st.integers(0, 1000), miner=st.integers(0, 7))
     def race_submit(self, a, b, c, miner):
         self.do(["race_submit", a, b, c, miner])
+
+    @rule(n=st.integers(0, 1), a=st.integers(0, 1000), miner=st.integers(0, 7))
+    def ibd_rollback(self, n, a, miner):
+        self.do(["ibd_rollback", n, a, miner])
 
     @rule(mask=st.integers(0, 15), conflict=st.integers(0, 3), via=st.sampled_from(["relay", "set"]), miner=st.integers(0, 7))
     def extend(self, mask, conflict, via, miner):
